@@ -45,7 +45,7 @@ G0 == [head |-> 0, lo |-> 0, dig |-> EmptyFn, pend |-> EmptyFn, reg |-> EmptyFn,
 
 NewStream(f, a, h) ==
   [from |-> f, a |-> a, pc |-> "open", sent |-> <<>>, nscan |-> 0, skipped |-> {}, dispAfter |-> {},
-   health |-> "ok", orphan |-> FALSE, repl |-> FALSE, lost |-> {}, queued |-> 0, headOpen |-> h,
+   health |-> "ok", orphan |-> FALSE, repl |-> FALSE, lost |-> {}, disp |-> 0, taken |-> 0, headOpen |-> h,
    evict |-> FALSE, why |-> "none"]
 
 Alarm(mon, e, shape, detail) ==
@@ -82,7 +82,8 @@ StepBeforeScan(e) ==
 
 StepSendEnter(e) ==
   /\ e.ev = "SendEnter" /\ Known(e)
-  /\ ss' = IF ss[e.s].pc = "live" /\ ss[e.s].queued > 0 THEN [ss EXCEPT ![e.s].queued = @ - 1] ELSE ss
+  \* the worker received one beacon from the stream's queue (may be recorded before the PutDone of that beacon)
+  /\ ss' = IF ss[e.s].pc = "live" THEN [ss EXCEPT ![e.s].taken = @ + 1] ELSE ss
   /\ UNCHANGED <<g, alarms, scen>>
 
 Between(a, b) == {x \in a..b : TRUE}
@@ -172,7 +173,7 @@ StepDispatch(e) ==
 StepPutDone(e) ==
   /\ e.ev = "PutDone"
   /\ LET D == Get(g.dset, e.r, {}) IN
-       ss' = [s \in DOMAIN ss |-> IF s \in D THEN [ss[s] EXCEPT !.queued = @ + 1] ELSE ss[s]]
+       ss' = [s \in DOMAIN ss |-> IF s \in D THEN [ss[s] EXCEPT !.disp = @ + 1] ELSE ss[s]]
   /\ g' = [g EXCEPT !.wedged = FALSE, !.ppos = Upd(g.ppos, e.r, l)]
   /\ alarms' = alarms \cup (IF e.res # "ok" THEN {Alarm("Conformance", e, "store", "Put returned an error")} ELSE {})
   /\ scen' = scen
@@ -182,7 +183,7 @@ StepPutBlocked(e) ==
   /\ e.ev = "PutBlocked"
   /\ LET D == Get(g.dset, e.r, {})
          shape ==
-           IF e.where = "chan send" /\ \E s \in D : ss[s].health = "stall" /\ ss[s].queued = g.q
+           IF e.where = "chan send" /\ \E s \in D : ss[s].health = "stall" /\ ss[s].disp = ss[s].taken + g.q
              THEN "stalled-consumer-queue-full"
            ELSE IF e.where = "bolt-remap" /\ \E s \in DOMAIN ss : ss[s].pc = "scan" /\ ss[s].health = "stall"
              THEN "bolt-remap-behind-open-scan"
